@@ -72,4 +72,21 @@ theorem core_slice_sites :
        ("_assocIn", "posVector.Val[1:]", false), ("rest", "slc[1:]", false),
        ("apply", "a[1:len(a) - 1]", false), ("conj", "a[1:]", false), ("conj", "a[1:]", false)] := by decide
 
+/-- EVERY `append` of the seven files (core, evaluator, types, L-notation, lisperror, concurrent, binder) — whatever the
+    function is called — grows a slice made in that function -/
+theorem all_appends_fresh : appendSites.all (·.fresh) = true := by decide
+
+/-- EVERY write into a slice or map of those files — an index assignment, `delete`, `copy`, `clear`, an in-place sort —
+    goes into a container made in the same function or into the result of a copy helper; the one exception is the
+    placeholder table `READWithPreamble` builds for itself behind a pointer.  (A helper that blanks bytes of its
+    argument, a marshaller that adds keys to the map it was handed: both would be rows with origin `param` / `field`.) -/
+theorem all_container_writes_fresh :
+    indexAssigns.all (fun s => s.fresh || copyHelpers.contains s.origin ||
+      (s.file == "mal.go" && s.func == "READWithPreamble" && s.target == "placeholderMap.Val")) = true := by decide
+
+/-- the error marshaller and the binder's registry write only into maps they made themselves -/
+theorem marshaller_and_registry_write_own_maps :
+    (indexAssigns.filter (fun s => s.file == "lisperror/lisperror.go" || s.file == "lib/call/call.go")).all (·.fresh) = true ∧
+    (indexAssigns.filter (fun s => s.func == "LispError.MarshalHashMap")).length = 3 := by decide
+
 end LispModel.Tie.Appends
